@@ -71,7 +71,7 @@ class GEval:
         if nparams is not None:
             c = [it for it in c if len(it.params) == nparams]
         if ptype is not None:
-            c = [it for it in c if any(ptype in (ty or "") for _, ty in it.params)]
+            c = [it for it in c if any(re.search(r"\b" + re.escape(ptype) + r"\b", ty or "") for _, ty in it.params)]
         if len(c) != 1:
             raise Untranslatable(self.items[0].file if self.items else "?", 0,
                                  f"expected exactly one fn {container or ''}::{name}, found {len(c)}")
@@ -668,6 +668,73 @@ def gen_grid(repo, out):
         if ev.uses_two_pi != pi:
             ev.fail(f, "use of TWO_PI changed")
         emit(name, ("(two_pi : T) " if pi else "") + AX, AXT, axes(v, f, ev), [f])
+
+    # ---- the From impls between the spaces: each must be one of the named conversions (or the plain wrapper)
+    from_impls = [
+        ("FrequencySpace", "WavelengthSpace", "from_ws_for_fs", True), ("FrequencySpace", "SumDiffFrequencySpace", "from_sd_for_fs", False),
+        ("SumDiffFrequencySpace", "WavelengthSpace", "from_ws_for_sd", True), ("SumDiffFrequencySpace", "FrequencySpace", "from_fs_for_sd", False),
+        ("WavelengthSpace", "FrequencySpace", "from_fs_for_ws", True), ("WavelengthSpace", "SumDiffFrequencySpace", "from_sd_for_ws", True),
+    ]
+    for cont, srcty, name, pi in from_impls:
+        f = ev.find("from", cont, ptype=srcty)
+        v, _, pre = run(f, cont, [space_sym(srcty)], None)
+        if pre or ev.uses_two_pi != pi:
+            ev.fail(f, "From impl: unexpected assertion / use of TWO_PI changed")
+        emit(name, ("(two_pi : T) " if pi else "") + AX, AXT, axes(v, f, ev), [f], f"impl From<{srcty}> for {cont}")
+    for cont in ("FrequencySpace", "SumDiffFrequencySpace", "WavelengthSpace"):
+        f = ev.find("from", cont, ptype="Steps2D")
+        v, _, pre = run(f, cont, [steps2d_sym()], None)
+        if not (v.kind == "STRUCT" and v.a == cont and set(v.b) == {"0"} and same(v.b["0"], steps2d_sym())):
+            ev.fail(f, f"impl From<Steps2D<_>> for {cont} must wrap the steps unchanged")
+        out.span(f"grid.from_steps.{cont}", f)
+
+    # ---- flat (signal, idler) arrays: `self.0.chunks_exact(N).map(|a| (a[i], a[j])).collect::<Vec<_>>()` then `chunked.into_iter()/.into_par_iter()` (mapped)
+    arr = {}
+    for cont in ("SignalIdlerFrequencyArray", "SignalIdlerWavelengthArray"):
+        maps = []
+        for fname, want in (("into_signal_idler_iterator", "into_iter"), ("into_signal_idler_par_iterator", "into_par_iter")):
+            f = ev.find(fname, cont)
+            out.span(f"grid.array.{cont}::{fname}", f)
+            body = f.body
+            try:
+                assert len(body[1]) == 1 and body[1][0][0] == "let" and body[1][0][1] == ("pbind", "chunked", False)
+                ch = body[1][0][3]
+                assert ch[0] == "mcall" and ch[2] == "collect" and ch[3] == []
+                mp = ch[1]
+                assert mp[0] == "mcall" and mp[2] == "map" and len(mp[3]) == 1 and mp[3][0][0] == "closure"
+                ce = mp[1]
+                assert ce == ("mcall", ("field", ("path", ["self"]), "0"), "chunks_exact", [ce[3][0]]) and ce[3][0][0] == "num"
+                size = int(ce[3][0][1])
+                clo = mp[3][0]
+                assert len(clo[1]) == 1 and clo[1][0][0] == "pbind"
+                a = clo[1][0][1]
+                pr = clo[2]
+                assert pr[0] == "tuple" and len(pr[1]) == 2 and all(x[0] == "index" and x[1] == ("path", [a]) and x[2][0] == "num" for x in pr[1])
+                idx = (int(pr[1][0][2][1]), int(pr[1][1][2][1]))
+                e = body[2]
+                if e[0] == "mcall" and e[2] == "map" and len(e[3]) == 1 and e[3][0][0] == "closure":
+                    inner_e, pclo = e[1], e[3][0]
+                else:
+                    inner_e, pclo = e, None
+                assert inner_e == ("mcall", ("path", ["chunked"]), want, [])
+            except (AssertionError, IndexError, TypeError, ValueError):
+                ev.fail(f, f"expected `let chunked = self.0.chunks_exact(N).map(|a| (a[i], a[j])).collect::<Vec<_>>(); chunked.{want}()[.map(closure)]`")
+            ev.uses_two_pi = False
+            ev.pre = []
+            ev.cur_container = cont
+            if pclo is None:
+                pm = r(TUP([T("a"), T("b")]))
+            else:
+                pm = r(ev.apply_closure(f, ev.ev(f, pclo, {}), [TUP([T("a"), T("b")])]))
+            maps.append((size, idx, pm, ev.uses_two_pi))
+        if maps[0] != maps[1]:
+            ev.fail(f, "sequential and parallel iterator of the flat array differ")
+        arr[cont] = maps[0]
+    for cont, nm in (("SignalIdlerFrequencyArray", "farr"), ("SignalIdlerWavelengthArray", "warr")):
+        size, idx, pm, pi = arr[cont]
+        defs.append(f"(* {cont}: chunks_exact({size}), the pair (a[{idx[0]}], a[{idx[1]}]) of every chunk, then the point map *)\n"
+                    f"Definition {nm}_chunk : nat * (nat * nat) := ({size}, ({idx[0]}, {idx[1]})).\n"
+                    f"Definition {nm}_point {'(two_pi : T) ' if pi else ''}(a b : T) : T * T :=\n  {pm}.\n")
 
     # ---- (signal, idler) point maps of the three representations
     for name, cont, pi in [("fs_point", "FrequencySpace", False), ("sd_point", "SumDiffFrequencySpace", False), ("ws_point", "WavelengthSpace", True)]:
